@@ -20,16 +20,16 @@ open LyModel LyModel.Tree LyModel.Diff
 (`goodT`), the reversed diff of an exact diff `D` applied to the tree `D` leads to gives the original tree back — structure,
 values and the default flags of all leaves / leaf-list instances (`dataEqL true`, the comparison with `LYD_COMPARE_DEFAULTS`).
 No bound on depth, width or the number of changes. -/
-theorem reverse_apply_partial {S : Schema} (K : KeyOrder S) {A D : List DNode} (hA : goodT S A = true)
+theorem reverse_apply_partial {S : Schema} {fx : Fixes} (K : KeyOrder S) {A D : List DNode} (hA : goodT S A = true)
     (hD : exactDiff S A D = true) :
-    ∃ B R A', apply S A D = .ok B ∧ reverse S D = .ok R ∧ apply S B R = .ok A' ∧ dataEqL true A' A = true := by
+    ∃ B R A', apply S A D fx = .ok B ∧ reverse S D = .ok R ∧ apply S B R fx = .ok A' ∧ dataEqL true A' A = true := by
   obtain ⟨B, R, A', h1, _, h2, _, h3, h4⟩ := reverse_roundtrip K hA hD
   exact ⟨B, R, A', h1, h2, h3, (dataEqL_iff_norm A' A).mpr h4⟩
 
 /-- … stated for the diff of two trees -/
-theorem reverse_apply_diff_partial {S : Schema} (K : KeyOrder S) {A B₀ : List DNode} (hA : goodT S A = true)
+theorem reverse_apply_diff_partial {S : Schema} {fx : Fixes} (K : KeyOrder S) {A B₀ : List DNode} (hA : goodT S A = true)
     (hD : exactDiff S A (diff S true A B₀) = true) :
-    ∃ B R A', apply S A (diff S true A B₀) = .ok B ∧ reverse S (diff S true A B₀) = .ok R ∧ apply S B R = .ok A' ∧
+    ∃ B R A', apply S A (diff S true A B₀) fx = .ok B ∧ reverse S (diff S true A B₀) = .ok R ∧ apply S B R fx = .ok A' ∧
       dataEqL true A' A = true :=
   reverse_apply_partial K hA hD
 
